@@ -94,6 +94,20 @@ Cells(dag, ty, i) ==
     [] op = "comp" -> W(ty[nd[2]][2]) + Max(Cells(dag, ty, nd[2]), Cells(dag, ty, nd[3]))
     [] op \in {"case", "pair"} -> Max(Cells(dag, ty, nd[2]), Cells(dag, ty, nd[3]))
     [] op = "disc" -> W(ty[nd[2]][1]) + W(ty[nd[2]][2]) + Max(Cells(dag, ty, nd[2]), Cells(dag, ty, nd[3]))
+\* cost in milli weight units (analysis.rs); jets cost what their table says (JetCost), not known here
+RECURSIVE CostOf(_, _, _)
+CostOf(dag, ty, i) ==
+  LET nd == dag[i]  op == nd[1]  Cst(j) == CostOf(dag, ty, j) IN
+  CASE op = "iden" -> 100 + W(ty[i][1])
+    [] op = "unit" -> 100
+    [] op = "fail" -> 0
+    [] op = "witness" -> 100 + W(ty[i][2])
+    [] op \in {"word0", "word1", "word"} -> 100 + W(ty[i][2])
+    [] op \in {"injl", "injr", "take", "drop", "assertl", "assertr"} -> 100 + Cst(nd[2])
+    [] op = "comp" -> 100 + W(ty[nd[2]][2]) + Cst(nd[2]) + Cst(nd[3])
+    [] op = "case" -> 100 + Max(Cst(nd[2]), Cst(nd[3]))
+    [] op = "pair" -> 100 + Cst(nd[2]) + Cst(nd[3])
+    [] op = "disc" -> 100 + 2 * W(ty[nd[2]][1]) + W(ty[nd[2]][2]) + (W(ty[nd[2]][2]) - W(ty[nd[3]][1])) + Cst(nd[2]) + Cst(nd[3])
 RECURSIVE Frames(_, _, _)
 Frames(dag, ty, i) ==
   LET nd == dag[i]  op == nd[1] IN
